@@ -99,5 +99,7 @@ def run_cells(cells: List[Dict[str, Any]], workers: Optional[int] = None, chunk:
     if workers == 1:
         _init_worker()
         return [run_cell(c) for c in cells]
-    with cf.ProcessPoolExecutor(max_workers=workers, initializer=_init_worker) as ex:
+    import multiprocessing as mp
+    # spawn: the parent may already have initialised JAX (forking a process with live XLA threads is not safe)
+    with cf.ProcessPoolExecutor(max_workers=workers, initializer=_init_worker, mp_context=mp.get_context("spawn")) as ex:
         return list(ex.map(run_cell, cells, chunksize=chunk))
